@@ -866,7 +866,7 @@ def undeclared_members(doc: dict, s: Any, v: Any, depth: int = 0) -> set:
                 return undeclared_members(doc, a, v, depth + 1)
         return out
     if "allOf" in s:
-        s = merge_all_of(doc, s)
+        s = merge_all_of(doc, s, v)
     if isinstance(v, dict) and isinstance(s.get("properties"), dict):
         ap = s.get("additionalProperties")
         for k, x in v.items():
@@ -1027,9 +1027,11 @@ def _array_candidates(doc: dict, s: dict, depth: int, budget: int) -> list:
     return out
 
 
-def merge_all_of(doc: dict, s: dict) -> dict:
+def merge_all_of(doc: dict, s: dict, value: Any = None) -> dict:
     """flatten allOf of object parts (refs resolved) into one object schema — used for instance
-    construction and by the normal form"""
+    construction and by the normal form. With `value`: a `oneOf` / `anyOf` standing in the schema or in one of
+    its parts contributes the first alternative under which `value` is valid (which members are declared then
+    depends on the instance)."""
     props: dict = {}
     req: list = []
     ap = None
@@ -1041,7 +1043,16 @@ def merge_all_of(doc: dict, s: dict) -> dict:
             bare_req += list(part["required"])
         p = resolve(doc, part)
         if "allOf" in p:
-            p = merge_all_of(doc, p)
+            p = merge_all_of(doc, p, value)
+        if value is not None:
+            for key in ("oneOf", "anyOf"):
+                for alt in p.get(key) or []:
+                    if isinstance(alt, dict) and sub_validator(doc, alt).is_valid(value):
+                        pa = resolve(doc, alt)
+                        if "allOf" in pa or "oneOf" in pa or "anyOf" in pa:
+                            pa = merge_all_of(doc, pa, value)
+                        p = {**p, "properties": {**(p.get("properties") or {}), **(pa.get("properties") or {})}}
+                        break
         for nm in p.get("properties", {}):
             from_ref[nm] = "$ref" in part
             own_req[nm] = nm in p.get("required", [])
